@@ -11,7 +11,7 @@ use crate::join::JoinHandle;
 use crate::scoped::spawn_unsafe;
 use crate::sync::Mutex;
 use crate::sync::{AtomicOption, Blocker};
-use crate::yield_now::yield_with;
+use crate::yield_now::{get_co_para, yield_with};
 
 use may_queue::mpsc::Queue;
 
@@ -127,6 +127,10 @@ impl EventSource for EventSender<'_> {
 
     fn yield_back(&self, _cancel: &'static Cancel) {
         // ignore the cancel to let the bottom half get processed
+        // but still consume the `Canceled` result that `yield_with` passes in
+        // when it detects the cancel in user space, nobody else would take it
+        // and it would be seen by the next coroutine that reuses this stack
+        get_co_para();
     }
 }
 
